@@ -243,8 +243,14 @@ theorem evalRT_filterT :
       exact ⟨trivial, ih.2⟩
     · exact ⟨rfl, by simp only [HasTyR]; exact h⟩
   | .split c true e, t, h => by simp [HasTyR] at h
-  | .merge _ _ _, _, h => by simp [HasTyR] at h
-  | .disabled _ _, _, h => by simp [HasTyR] at h
+  | .merge c m e, t, h => by
+    have e' : filterT st t (.merge c m e) = .merge c m e := by simp [filterT]
+    rw [e']; exact ⟨rfl, h⟩
+  | .disabled d v, t, h => by
+    simp only [HasTyR] at h
+    have ih := evalRT_filterT v t h.2
+    simp only [filterT, evalRT, HasTyR, ih.1]
+    exact ⟨trivial, h.1, ih.2⟩
   | .fork c ix e, t, h => by
     have e' : filterT st t (.fork c ix e) = .fork c ix e := by simp [filterT]
     rw [e']; exact ⟨rfl, h⟩
@@ -331,30 +337,129 @@ theorem HasTyRList_getD (st : StructTable) (t : Ty) :
     simp only [HasTyRList] at h
     simpa using HasTyRList_getD st t xs k h.2
 
+theorem noMergeOf_mem (c : String) : ∀ (kvs : List (String × RExp)) (k : String) (e : RExp),
+    noMergeOfFields c kvs = true → (k, e) ∈ kvs → noMergeOf c e = true
+  | [], _, _, _, h => by simp at h
+  | (k0, e0) :: es, k, e, hn, h => by
+    simp only [noMergeOfFields, Bool.and_eq_true] at hn
+    simp only [List.mem_cons, Prod.mk.injEq] at h
+    cases h with
+    | inl h => rw [h.2]; exact hn.1
+    | inr h => exact noMergeOf_mem c es k e hn.2 h
+
+theorem noSplitOf_getD (c : String) : ∀ (xs : List RExp) (k : Nat), noSplitOfList c xs = true →
+    noSplitOf c (xs.getD k (.lit .null)) = true
+  | [], _, _ => by simp [noSplitOf]
+  | x :: xs, 0, h => by simp only [noSplitOfList, Bool.and_eq_true] at h; simpa using h.1
+  | x :: xs, k+1, h => by
+    simp only [noSplitOfList, Bool.and_eq_true] at h
+    simpa using noSplitOf_getD c xs k h.2
+
+theorem noSplitOf_selectIx (c : String) (ix : Idx) (e x : RExp) (h : noSplitOf c e = true)
+    (hs : selectIx ix e = some x) : noSplitOf c x = true := by
+  cases e with
+  | arr xs =>
+    simp only [noSplitOf] at h
+    cases ix with
+    | i n =>
+      simp only [selectIx, Option.some.injEq] at hs
+      subst hs
+      exact noSplitOf_getD c xs n h
+    | k s => simp only [selectIx, Option.some.injEq] at hs; subst hs; simp [noSplitOf]
+    | none => simp only [selectIx, Option.some.injEq] at hs; subst hs; simp [noSplitOf]
+  | map kvs =>
+    simp only [noSplitOf] at h
+    cases ix with
+    | i n => simp only [selectIx, Option.some.injEq] at hs; subst hs; simp [noSplitOf]
+    | k s =>
+      simp only [selectIx, Option.some.injEq] at hs
+      subst hs
+      exact Proofs.ResolverForks.noSplitOf_lookup c kvs s h
+    | none => simp only [selectIx, Option.some.injEq] at hs; subst hs; simp [noSplitOf]
+  | lit _ => simp [selectIx] at hs
+  | struct _ => simp [selectIx] at hs
+  | ref _ _ _ => simp [selectIx] at hs
+  | split _ _ _ => simp [selectIx] at hs
+  | merge _ _ _ => simp [selectIx] at hs
+  | disabled _ _ => simp [selectIx] at hs
+  | fork _ _ _ => simp [selectIx] at hs
+
+mutual
+/-- specialising to a fork does not create a `split` -/
+theorem noSplitOf_pushFork (c' c : String) (ix : Idx) :
+    ∀ e : RExp, noSplitOf c' e = true → noSplitOf c' (pushFork c ix e) = true
+  | .lit _, _ => by simp [pushFork, noSplitOf]
+  | .arr xs, h => by simp only [pushFork, noSplitOf] at h ⊢; exact noSplitOf_pushForkList c' c ix xs h
+  | .map kvs, h => by simp only [pushFork, noSplitOf] at h ⊢; exact noSplitOf_pushForkFields c' c ix kvs h
+  | .struct kvs, h => by simp only [pushFork, noSplitOf] at h ⊢; exact noSplitOf_pushForkFields c' c ix kvs h
+  | .ref _ _ _, _ => by simp [pushFork, noSplitOf]
+  | .split c2 m e, h => by
+    have h' := h
+    simp only [noSplitOf, Bool.and_eq_true] at h
+    have ih := noSplitOf_pushFork c' c ix e h.2
+    simp only [pushFork]
+    split
+    · cases hs : selectIx ix (pushFork c ix e) with
+      | some x => exact noSplitOf_selectIx c' ix _ x ih hs
+      | none => simp only [noSplitOf]; exact h'
+    · simp only [noSplitOf, Bool.and_eq_true]; exact ⟨h.1, ih⟩
+  | .merge c2 m e, h => by
+    simp only [noSplitOf] at h
+    simp only [pushFork, noSplitOf]
+    exact Proofs.ResolverForks.noSplitOf_mkMerge c' c2 m _ (noSplitOf_pushFork c' c ix e h)
+  | .disabled d v, h => by
+    simp only [noSplitOf, Bool.and_eq_true] at h
+    simp only [pushFork, noSplitOf, Bool.and_eq_true]
+    exact ⟨noSplitOf_pushFork c' c ix d h.1, noSplitOf_pushFork c' c ix v h.2⟩
+  | .fork c2 ix2 e, h => by
+    simp only [noSplitOf] at h
+    simp only [pushFork]
+    split
+    · simp only [noSplitOf]; exact h
+    · simp only [noSplitOf]; exact noSplitOf_pushFork c' c ix e h
+theorem noSplitOf_pushForkList (c' c : String) (ix : Idx) :
+    ∀ es : List RExp, noSplitOfList c' es = true → noSplitOfList c' (pushForkList c ix es) = true
+  | [], _ => by simp [pushForkList, noSplitOfList]
+  | e :: es, h => by
+    simp only [noSplitOfList, Bool.and_eq_true] at h
+    simp only [pushForkList, noSplitOfList, Bool.and_eq_true]
+    exact ⟨noSplitOf_pushFork c' c ix e h.1, noSplitOf_pushForkList c' c ix es h.2⟩
+theorem noSplitOf_pushForkFields (c' c : String) (ix : Idx) :
+    ∀ es : List (String × RExp), noSplitOfFields c' es = true → noSplitOfFields c' (pushForkFields c ix es) = true
+  | [], _ => by simp [pushForkFields, noSplitOfFields]
+  | (k, e) :: es, h => by
+    simp only [noSplitOfFields, Bool.and_eq_true] at h
+    simp only [pushForkFields, noSplitOfFields, Bool.and_eq_true]
+    exact ⟨noSplitOf_pushFork c' c ix e h.1, noSplitOf_pushForkFields c' c ix es h.2⟩
+end
+
 section push
 variable (st : StructTable) (hst : StructsOk st) (F : Nat) (ρ : Store) (hρ : StoreExt ρ) (c : String) (k : Nat)
 include hst hρ
 
 mutual
 theorem pushFork_evalRT :
-    ∀ (e : RExp) (t : Ty) (f : ForkAssign), HasTyR st t e →
+    ∀ (e : RExp) (t : Ty) (f : ForkAssign), HasTyR st t e → noMergeOf c e = true →
       evalRT st F ρ f t (pushFork c (.i k) e) = evalRT st F ρ (fset f c (.i k)) t e ∧
       HasTyR st t (pushFork c (.i k) e)
-  | .lit j, t, f, h => by simp only [pushFork, evalRT]; exact ⟨trivial, h⟩
-  | .arr xs, t, f, h => by
+  | .lit j, t, f, h, _ => by simp only [pushFork, evalRT]; exact ⟨trivial, h⟩
+  | .arr xs, t, f, h, hnm => by
     simp only [HasTyR] at h
-    have ih := pushFork_evalRTList xs _ f h.2
+    simp only [noMergeOf] at hnm
+    have ih := pushFork_evalRTList xs _ f h.2 hnm
     simp only [pushFork, evalRT, HasTyR, ih.1]
     exact ⟨trivial, h.1, ih.2⟩
-  | .map kvs, t, f, h => by
+  | .map kvs, t, f, h, hnm => by
     simp only [HasTyR] at h
+    simp only [noMergeOf] at hnm
     obtain ⟨ha, hm, hk⟩ := h
-    have ih := pushFork_evalRTFields kvs _ f hk
+    have ih := pushFork_evalRTFields kvs _ f hk hnm
     have c2 : (t.arrDim == 0 && t.mapDim != 0) = true := by simp [ha, hm]
     simp only [pushFork, evalRT, c2, if_true, ih.1, HasTyR]
     exact ⟨trivial, ha, hm, ih.2⟩
-  | .struct kvs, t, f, h => by
+  | .struct kvs, t, f, h, hnm => by
     simp only [HasTyR] at h
+    simp only [noMergeOf] at hnm
     obtain ⟨ha, hm, ps, hl, hmem, hall⟩ := h
     have hn := hst _ _ hl
     have c2 : (t.arrDim == 0 && t.mapDim != 0) = false := by simp [ha, hm]
@@ -369,7 +474,7 @@ theorem pushFork_evalRT :
       | none => rfl
       | some e =>
         simp only [Option.map_some, Option.getD_some]
-        exact (pushFork_evalRTMembers ps kvs f hmem p.name e (mem_of_lookup kvs _ _ he) p hfind).1
+        exact (pushFork_evalRTMembers ps kvs f hmem hnm p.name e (mem_of_lookup kvs _ _ he) p hfind).1
     · simp only [pushFork, HasTyR]
       refine ⟨ha, hm, ps, hl, ?_, ?_⟩
       · apply HasTyRMembers_of_mem
@@ -380,19 +485,20 @@ theorem pushFork_evalRT :
         | none => simp [hf'] at hsome
         | some p =>
           rw [memberTy_find ps k' p hf']
-          exact (pushFork_evalRTMembers ps kvs f hmem k' e he p hf').2
+          exact (pushFork_evalRTMembers ps kvs f hmem hnm k' e he p hf').2
       · intro p hp
         rw [lookup_pushForkFields]
         have := hall p hp
         cases he : kvs.lookup p.name with
         | none => simp [he] at this
         | some e => simp
-  | .ref n sty p, t, f, h => by
+  | .ref n sty p, t, f, h, _ => by
     simp only [pushFork, evalRT, HasTyR]
     exact ⟨trivial, h⟩
-  | .split c' false e, t, f, h => by
+  | .split c' false e, t, f, h, hnm => by
     simp only [HasTyR] at h
-    have ih := pushFork_evalRT e _ f h
+    simp only [noMergeOf] at hnm
+    have ih := pushFork_evalRT e _ f h hnm
     simp only [pushFork]
     by_cases hc : (c' == c) = true
     · have hcc : c' = c := by simpa using hc
@@ -424,11 +530,34 @@ theorem pushFork_evalRT :
     · have hc' : (c' == c) = false := by simpa using hc
       simp only [hc', Bool.false_eq_true, if_false, evalRT, HasTyR, ih.1, fset_lookup_ne f c c' (.i k) hc']
       exact ⟨trivial, ih.2⟩
-  | .split _ true _, _, _, h => by simp [HasTyR] at h
-  | .merge _ _ _, _, _, h => by simp [HasTyR] at h
-  | .disabled _ _, _, _, h => by simp [HasTyR] at h
-  | .fork c' ix' e, t, f, h => by
+  | .split _ true _, _, _, h, _ => by simp [HasTyR] at h
+  | .merge c' false e, t, f, h, hnm => by
+    obtain ⟨b, m, a⟩ := t
     simp only [HasTyR] at h
+    simp only [noMergeOf, Bool.and_eq_true, bne_iff_ne, ne_eq] at hnm
+    obtain ⟨ha, hns, hty⟩ := h
+    have hns' := noSplitOf_pushFork c' c (.i k) e hns
+    have hcc : (c' == c) = false := by simpa using hnm.1
+    simp only [pushFork, Proofs.ResolverForks.mkMerge_noSplit c' false _ hns', evalRT, HasTyR]
+    refine ⟨?_, ha, hns', (pushFork_evalRT e _ f hty hnm.2).2⟩
+    congr 1
+    apply List.map_congr_left
+    intro ix' _
+    rw [(pushFork_evalRT e _ (fset (fset f c (.i k)) c' ix') hty hnm.2).1]
+    apply evalRT_congr st F ρ hρ
+    intro d
+    rw [← fset_comm (fset f c (.i k)) c c' (.i k) ix' hcc d, fset_fset]
+  | .merge _ true _, _, _, h, _ => by simp [HasTyR] at h
+  | .disabled d v, t, f, h, hnm => by
+    simp only [HasTyR] at h
+    simp only [noMergeOf, Bool.and_eq_true] at hnm
+    have ih1 := pushFork_evalRT d _ f h.1 hnm.1
+    have ih2 := pushFork_evalRT v t f h.2 hnm.2
+    simp only [pushFork, evalRT, HasTyR, ih1.1, ih2.1]
+    exact ⟨trivial, ih1.2, ih2.2⟩
+  | .fork c' ix' e, t, f, h, hnm => by
+    simp only [HasTyR] at h
+    simp only [noMergeOf] at hnm
     simp only [pushFork]
     by_cases hc : (c' == c) = true
     · have hcc : c' = c := by simpa using hc
@@ -436,50 +565,54 @@ theorem pushFork_evalRT :
       simp only [hc, if_true, evalRT, fset_fset, HasTyR]
       exact ⟨trivial, h⟩
     · have hc' : (c' == c) = false := by simpa using hc
-      have ih := pushFork_evalRT e t (fset f c' ix') h
+      have ih := pushFork_evalRT e t (fset f c' ix') h hnm
       simp only [hc', Bool.false_eq_true, if_false, evalRT, HasTyR, ih.1]
       refine ⟨?_, ih.2⟩
       apply evalRT_congr st F ρ hρ
       intro d
       exact (fset_comm f c c' (.i k) ix' hc' d).symm
 theorem pushFork_evalRTList :
-    ∀ (es : List RExp) (t : Ty) (f : ForkAssign), HasTyRList st t es →
+    ∀ (es : List RExp) (t : Ty) (f : ForkAssign), HasTyRList st t es → noMergeOfList c es = true →
       evalRTList st F ρ f t (pushForkList c (.i k) es) = evalRTList st F ρ (fset f c (.i k)) t es ∧
       HasTyRList st t (pushForkList c (.i k) es)
-  | [], _, _, _ => by simp [pushForkList, evalRTList, HasTyRList]
-  | e :: es, t, f, h => by
+  | [], _, _, _, _ => by simp [pushForkList, evalRTList, HasTyRList]
+  | e :: es, t, f, h, hnm => by
     simp only [HasTyRList] at h
-    have h1 := pushFork_evalRT e t f h.1
-    have h2 := pushFork_evalRTList es t f h.2
+    simp only [noMergeOfList, Bool.and_eq_true] at hnm
+    have h1 := pushFork_evalRT e t f h.1 hnm.1
+    have h2 := pushFork_evalRTList es t f h.2 hnm.2
     simp only [pushForkList, evalRTList, HasTyRList, h1.1, h2.1]
     exact ⟨trivial, h1.2, h2.2⟩
 theorem pushFork_evalRTFields :
     ∀ (kvs : List (String × RExp)) (t : Ty) (f : ForkAssign), HasTyRFields st t kvs →
+      noMergeOfFields c kvs = true →
       evalRTFields st F ρ f t (pushForkFields c (.i k) kvs) = evalRTFields st F ρ (fset f c (.i k)) t kvs ∧
       HasTyRFields st t (pushForkFields c (.i k) kvs)
-  | [], _, _, _ => by simp [pushForkFields, evalRTFields, HasTyRFields]
-  | (k', e) :: es, t, f, h => by
+  | [], _, _, _, _ => by simp [pushForkFields, evalRTFields, HasTyRFields]
+  | (k', e) :: es, t, f, h, hnm => by
     simp only [HasTyRFields] at h
-    have h1 := pushFork_evalRT e t f h.1
-    have h2 := pushFork_evalRTFields es t f h.2
+    simp only [noMergeOfFields, Bool.and_eq_true] at hnm
+    have h1 := pushFork_evalRT e t f h.1 hnm.1
+    have h2 := pushFork_evalRTFields es t f h.2 hnm.2
     simp only [pushForkFields, evalRTFields, HasTyRFields, h1.1, h2.1]
     exact ⟨trivial, h1.2, h2.2⟩
 theorem pushFork_evalRTMembers (ps : List Param) :
-    ∀ (kvs : List (String × RExp)) (f : ForkAssign), HasTyRMembers st ps kvs →
+    ∀ (kvs : List (String × RExp)) (f : ForkAssign), HasTyRMembers st ps kvs → noMergeOfFields c kvs = true →
       ∀ (k' : String) (e : RExp), (k', e) ∈ kvs → ∀ (p : Param), ps.find? (fun q => q.name == k') = some p →
         evalRT st F ρ f p.ty (pushFork c (.i k) e) = evalRT st F ρ (fset f c (.i k)) p.ty e ∧
         HasTyR st p.ty (pushFork c (.i k) e)
-  | [], _, _, _, _, h, _, _ => by simp at h
-  | (k0, e0) :: es, f, hm, k', e, h, p, hf => by
+  | [], _, _, _, _, _, h, _, _ => by simp at h
+  | (k0, e0) :: es, f, hm, hnm, k', e, h, p, hf => by
     simp only [HasTyRMembers] at hm
+    simp only [noMergeOfFields, Bool.and_eq_true] at hnm
     simp only [List.mem_cons, Prod.mk.injEq] at h
     cases h with
     | inl h =>
       obtain ⟨rfl, rfl⟩ := h
       have hty := hm.1 (by simp [hf])
       rw [memberTy_find ps k' p hf] at hty
-      exact pushFork_evalRT e p.ty f hty
-    | inr h => exact pushFork_evalRTMembers ps es f hm.2 k' e h p hf
+      exact pushFork_evalRT e p.ty f hty hnm.1
+    | inr h => exact pushFork_evalRTMembers ps es f hm.2 hnm.2 k' e h p hf
 end
 
 end push
